@@ -101,13 +101,16 @@ def gen_ooxml_negative_cfb(ctx, tmp, n):
     for i in range(n):
         ents = [pwgen.Entry("EncryptionInfo", 2, pwgen.rnd(rng, 200))]
         for nm in rng.sample(near, rng.randrange(1, 4)):
-            if nm not in [e.name for e in ents]:
+            if nm.upper() not in [e.name.upper() for e in ents]:
                 ents.append(pwgen.Entry(nm, 2, pwgen.rnd(rng, rng.choice([0, 100, 5000]))))
         data, chain = pwgen.cfb_build(ents, rng, version=rng.choice([3, 4]))
         cid = "on%d" % i
-        cases.append(Case(cid, "ooxml", write(tmp, cid + ".xlsx", data), ooxml_margs(data, chain), "notpassword",
-                          desc={"names": [e.name for e in ents]}).full())
-        ctx.count("ooxml-:cfb-near-miss")
+        # (CFB-1: a name that differs from EncryptedPackage only in the case of its ASCII letters IS that name,
+        # MS-CFB 2.6.4; "EncryptédPackage" and the others are not)
+        anycase = any("".join(ch.upper() if "a" <= ch <= "z" else ch for ch in e.name) == "ENCRYPTEDPACKAGE" for e in ents)
+        cases.append(Case(cid, "ooxml", write(tmp, cid + ".xlsx", data), ooxml_margs(data, chain),
+                          "password" if anycase else "notpassword", desc={"names": [e.name for e in ents]}).full())
+        ctx.count("ooxml+:cfb-other-case" if anycase else "ooxml-:cfb-near-miss")
     # name fields with byte-order marks / odd code units: model vs impl (the BOM is sniffed by
     # Encoding::decode, so FF FE + name matches)
     ep = "EncryptedPackage".encode("utf-16-le")
